@@ -71,6 +71,21 @@ func noteToken(r *ev.Run, tok string) {
 		return
 	}
 	nano, err := strconv.ParseInt(rest[:col], 10, 64)
+	if dot := strings.IndexByte(rest[:col], '.'); err != nil && dot > 0 {
+		// the form for times an int64 of nanoseconds cannot hold: <seconds>.<nanoseconds>
+		sec, err1 := strconv.ParseInt(rest[:dot], 10, 64)
+		ns, err2 := strconv.ParseInt(rest[dot+1:col], 10, 64)
+		if err1 == nil && err2 == nil {
+			sign, frac := "positive", "whole-second"
+			if sec < 0 {
+				sign = "negative"
+			}
+			if ns != 0 {
+				frac = "with-sub-second-part"
+			}
+			r.Note("tokens", "seconds.nanoseconds-form/"+sign+"-seconds/"+frac)
+		}
+	}
 	switch {
 	case err != nil:
 	case nano == 0:
@@ -158,7 +173,46 @@ func runEpochWorldsC09(r *ev.Run) {
 			r.Note("world_features", k)
 		}
 	}
-	r.Require("time_features", "unix-epoch", "outside-1678-2262")
+	// far worlds whose far dates have sub-second parts, tied and nearly tied (within twice the
+	// fraction, within a few nanoseconds) so that page ends fall on, and right next to, such instants
+	for k := 0; k < r.Pick(1, 3); k++ {
+		wid := fmt.Sprintf("world-farfrac%d;", k)
+		if !r.Only(wid) {
+			continue
+		}
+		label := fmt.Sprintf("pq%d", k)
+		w := genSearchWorldX(r.Rand("farfrac-world/"+label), label, 64+6*k, false, false, worldOpts{far: true, farFrac: true})
+		modes, err := buildModes(w)
+		if err != nil {
+			r.Inconclusive("cannot index world: " + err.Error())
+			continue
+		}
+		r.Note("time_features", "outside-1678-2262-with-sub-second-part")
+		cons := []*search.Constraint{
+			{CamliType: schema.TypePermanode},
+			{Permanode: &search.PermanodeConstraint{Time: &search.TimeConstraint{Before: types.Time3339(time.Date(1700, 1, 1, 0, 0, 0, 0, time.UTC))}}},
+			{Permanode: &search.PermanodeConstraint{Time: &search.TimeConstraint{After: types.Time3339(time.Date(2262, 1, 1, 0, 0, 0, 0, time.UTC))}}},
+			{Permanode: &search.PermanodeConstraint{SkipHidden: true, Time: &search.TimeConstraint{After: types.Time3339(time.Date(1215, 6, 14, 0, 0, 0, 0, time.UTC)), Before: types.Time3339(time.Date(1455, 3, 1, 12, 0, 0, 600000000, time.UTC))}}},
+		}
+		for ci, c := range cons {
+			cj, _ := json.Marshal(c)
+			p := &pager{r: r, w: w, wid: wid, c: c, cj: cj, m: modes[(ci+k)%2]}
+			p.light = ci > 0 && r.Pick(1, 0) == 1
+			p.checkAll(false)
+		}
+		r.Count("worlds", 1)
+		r.Count("far_worlds", 1)
+		for k, n := range w.features {
+			r.Count("feature:"+k, n)
+			r.Note("world_features", k)
+		}
+	}
+	r.Require("time_features", "unix-epoch", "outside-1678-2262", "outside-1678-2262-with-sub-second-part")
+	r.Require("world_features", "far/date-attr-outside-1678-2262-with-sub-second-part")
+	r.Require("tokens", "seconds.nanoseconds-form/negative-seconds/with-sub-second-part", "seconds.nanoseconds-form/negative-seconds/whole-second",
+		"seconds.nanoseconds-form/positive-seconds/with-sub-second-part", "seconds.nanoseconds-form/positive-seconds/whole-second")
+	r.Require("paging", "page-end-outside-1678-2262-with-sub-second-part/before-1678/next-result-tied", "page-end-outside-1678-2262-with-sub-second-part/before-1678/next-result-within-twice-the-fraction",
+		"page-end-outside-1678-2262-with-sub-second-part/after-2262/next-result-tied", "page-end-outside-1678-2262-with-sub-second-part/after-2262/next-result-within-twice-the-fraction")
 	r.Require("world_features", "far/date-attr-outside-1678-2262", "created-time/before-1678", "created-time/after-2262", "created-time/year-1-or-9999")
 	r.Require("world_features", "epoch/date-attr-at-or-next-to-unix-epoch", "epoch/camliContent-file-with-modtime-0", "created-time/exactly-unix-epoch",
 		"created-time/exactly-unix-epoch-in-non-UTC-notation", "created-time/within-the-epoch-second", "created-time/pre-1970", "created-time/post-1970",
